@@ -270,8 +270,17 @@ RegProps(reg2, isSearch) ==
             \* specification's view of the records: tokenisation, limit, markers)
             IF Has(E, "qtok") /\ TwinMatches(E.id, reg2[E.id]) THEN
               LET S  == st[Twin(E.id)]
-                  EE == [op |-> "search", sid |-> Twin(E.id), q |-> E.q, qtok |-> E.qtok, hits |-> BufOf(E.id)]
+                  EE == [op |-> "search", sid |-> Twin(E.id), q |-> E.q, qtok |-> E.qtok, hits |-> BufOf(E.id),
+                         expect |-> IF Has(E, "expect") THEN E.expect ELSE [prop |-> "none"]]
               IN JoinAll(<<
+                   \* a case of a reachability property asked through the top-level API
+                   CASE EE.expect.prop = "C03" -> C03(EE, S, l)
+                     [] EE.expect.prop = "C04" -> C04(EE, S, l)
+                     [] EE.expect.prop = "C05" -> C05Prefix(EE, S, l)
+                     [] EE.expect.prop = "C08" -> C08(EE, S, l)
+                     [] EE.expect.prop = "C13" -> C13(EE, S, l)
+                     [] EE.expect.prop = "C14" -> C14(EE, S, l)
+                     [] OTHER -> NoRes,
                    JoinAll([i \in DOMAIN EE.hits |-> C02Hit(EE.hits[i], S, l)]),
                    JoinAll([i \in DOMAIN EE.hits |-> C09Hit(EE.hits[i], EE, S, l)]),
                    JoinAll([i \in DOMAIN EE.hits |-> C05Hit(EE.hits[i], EE, S, l)]),
